@@ -268,6 +268,10 @@ class _BufferedWriter:
     def writable(self):
         return True
 
+    def fileno(self):
+        # no shortcut around the buffer (shutil falls back to read/write copying)
+        raise io.UnsupportedOperation('fileno')
+
     def readable(self):
         return False
 
@@ -541,7 +545,7 @@ def _results_diff(a, b):
 
 
 def _short(x, n=300):
-    s = repr(x)
+    s = x if isinstance(x, str) else repr(x)
     return s if len(s) <= n else s[:n] + '...'
 
 
@@ -751,7 +755,7 @@ def _probe_uncommitted(ctx, db, label, ref_desc_options, fails, fid, clause, wha
                 best = md + rd
         if best:
             ok = False
-            fails.add(fid, clause, f'{what}: reader of name {name!r} obtained a different entry: ' + '; '.join(best))
+            fails.add(fid, clause, f'{what}reader of name {name!r} obtained a different entry: ' + '; '.join(best))
     try:
         gotk = db.retrieve_model_entry(_key_of(label))
     except Exception:
@@ -761,7 +765,7 @@ def _probe_uncommitted(ctx, db, label, ref_desc_options, fails, fid, clause, wha
         md, rd = _entry_diff(me, gotk, name=False, description=not shared)
         if md or rd:
             ok = False
-            fails.add(fid, clause, f'{what}: reader of the key of {label} obtained a different entry: ' + '; '.join(md + rd))
+            fails.add(fid, clause, f'{what}reader of the key of {label} obtained a different entry: ' + '; '.join(md + rd))
     return ok
 
 
@@ -1226,5 +1230,802 @@ def bounded_store_crash_replay(rp):
     out = _run_case(case['steps'], case['crash_at'], case['mode'], case['torn'], case['post'])
     for f in out['fails']:
         if f['fid'] == case.get('fid') and f['clause'] == case.get('clause'):
+            return (False, f['detail'])
+    return (True, 'ok')
+
+
+# ======================================================================================
+#  Part 2: C04 - $THETA / $OMEGA / $SIGMA write-back over record layouts x edits
+# ======================================================================================
+
+FID_UPD_TH = 'src/pharmpy/model/external/nonmem/update.py:update_thetas'
+FID_UPD_RV = 'src/pharmpy/model/external/nonmem/update.py:update_random_variable_records'
+FID_PARSE = 'src/pharmpy/model/external/nonmem/parsing.py:parse_parameters'
+_FID_EDIT = {
+    'init': 'src/pharmpy/modeling/parameters.py:set_initial_estimates',
+    'lower': 'src/pharmpy/modeling/parameters.py:set_lower_bounds',
+    'upper': 'src/pharmpy/modeling/parameters.py:set_upper_bounds',
+    'fix': 'src/pharmpy/modeling/parameters.py:fix_parameters',
+    'unfix': 'src/pharmpy/modeling/parameters.py:unfix_parameters',
+    'add_theta': 'src/pharmpy/modeling/parameters.py:add_population_parameter',
+    'rm_theta': 'src/pharmpy/modeling/common.py:remove_unused_parameters_and_rvs',
+    'rm_eps': 'src/pharmpy/modeling/common.py:remove_unused_parameters_and_rvs',
+    'join': 'src/pharmpy/modeling/parameter_variability.py:create_joint_distribution',
+    'split': 'src/pharmpy/modeling/parameter_variability.py:split_joint_distribution',
+    'remove_iiv': 'src/pharmpy/modeling/parameter_variability.py:remove_iiv',
+    'add_iiv': 'src/pharmpy/modeling/parameter_variability.py:add_iiv',
+}
+
+R_READ = 'the layout is read without internal error'
+R_IDENT = 'without any edit the generated code is the original text'
+R_NOERR = 'the edit raises no internal error (only ValueError for inputs it rejects)'
+R_PARSE = 'the generated code can be generated and read back'
+R_NAMES = 're-read parameters have the same names'
+R_ORDER = 're-read parameters are in the same order'
+R_INIT6 = 're-read parameters have the same initial estimates (to 1e-6 relative)'
+R_INIT12 = 're-read parameters have the same initial estimates (to 1e-12 relative)'
+R_BOUNDS = 're-read parameters have the same bounds'
+R_FIX = 're-read parameters have the same fixedness'
+R_RVNAMES = 're-read random variables have the same names in the same order'
+R_RVSTRUCT = 're-read random variables have the same joint structure, levels and (co)variance values'
+R_SPELL = 'values that were not changed keep their original spelling'
+
+_TEMPLATE = """$PROBLEM layout
+$INPUT ID TIME DV
+$DATA file.csv IGNORE=@
+$PRED
+{pred}
+{theta}
+{omega}
+{sigma}
+$ESTIMATION METHOD=1 INTER
+"""
+
+
+def _pred(nt, ne, ns):
+    lines = [f'P{i} = THETA({i})' for i in range(1, nt + 1)]
+    lines.append('E1 = EXP(ETA(1))')
+    lines += [f'E{i} = ETA({i})' for i in range(2, ne + 1)]
+    lines.append('X = ' + ' + '.join(f'P{i}' for i in range(1, nt + 1)))
+    lines.append('Z = X*E1' + ''.join(f' + E{i}' for i in range(2, ne + 1)))
+    y = 'Y = Z + Z*EPS(1)' + ''.join(f' + EPS({i})' for i in range(2, ns + 1))
+    lines.append(y)
+    return '\n'.join(lines)
+
+
+def _layout_code(lay):
+    return _TEMPLATE.format(pred=_pred(lay['nt'], lay['ne'], lay['ns']), theta=lay['theta'],
+                            omega=lay['omega'], sigma=lay['sigma'])
+
+
+# --- layouts ----------------------------------------------------------------------------------
+
+_TH_VALUES = [('1.50', '9.5'), ('2.0E0', '8.25'), ('3.25', '7.75')]
+_TH_FORMS = {
+    'v': '{v}',
+    'lv': '(0,{v})',
+    'lvu': '(0,{v},{u})',
+    'vF': '{v} FIX',
+    'lvuFin': '(0,{v},{u} FIX)',
+    'lvuF': '(0,{v},{u}) FIX',
+    'vFin': '({v} FIX)',
+    'inf': '(-INF,{v},INF)',
+}
+_TH_FORMS4 = ['v', 'lvu', 'vF', 'lvuF']
+_TH_NAMES = ['TVCL', 'TVV', 'TVKA']
+
+
+def _compositions(n):
+    if n == 0:
+        yield []
+        return
+    for first in range(1, n + 1):
+        for rest in _compositions(n - first):
+            yield [first] + rest
+
+
+def _theta_text(forms, comp, style):
+    """forms: form id per theta; comp: thetas per record; style: 'inline' (one line per record)
+    or 'lines' (one theta per line, each with a name comment).
+    returns (text, spelling) with spelling = {theta index (1-based): (pharmpy name, [tokens])}"""
+    recs = []
+    spell = {}
+    k = 0
+    for size in comp:
+        items = []
+        for _ in range(size):
+            v, u = _TH_VALUES[k]
+            f = forms[k]
+            txt = _TH_FORMS[f].format(v=v, u=u)
+            toks = [v] + ([u] if '{u}' in _TH_FORMS[f] else [])
+            name = _TH_NAMES[k] if style == 'lines' else f'THETA_{k + 1}'
+            spell[k + 1] = (name, toks)
+            items.append(txt + (f' ; {name}' if style == 'lines' else ''))
+            k += 1
+        if style == 'lines':
+            recs.append('$THETA ' + '\n       '.join(items))
+        else:
+            recs.append('$THETA ' + ' '.join(items))
+    return '\n'.join(recs), spell
+
+
+_SIMPLE_OMEGA = {'text': '$OMEGA 0.11', 'n': 1}
+_SIMPLE_SIGMA = {'text': '$SIGMA 0.51', 'n': 1}
+_SIMPLE_THETA = '$THETA (0,1.50,9.5) ; TVCL\n$THETA 2.0E0'
+
+
+def _theta_layouts(tier):
+    out = []
+    seen = set()
+
+    def add(forms, comp, style):
+        text, spell = _theta_text(forms, comp, style)
+        if text in seen:
+            return
+        seen.add(text)
+        out.append({'family': 'theta', 'nt': len(forms), 'ne': 1, 'ns': 1, 'theta': text,
+                    'omega': _SIMPLE_OMEGA['text'], 'sigma': _SIMPLE_SIGMA['text'],
+                    'spell': {v[0]: v[1] for v in spell.values()}, 'scaled': []})
+
+    allf = list(_TH_FORMS)
+    for f in allf:
+        for style in ('inline', 'lines'):
+            add([f], [1], style)
+    forms2 = allf if tier == 'thorough' else _TH_FORMS4
+    for f1 in forms2:
+        for f2 in forms2:
+            for comp, style in (([2], 'inline'), ([2], 'lines'), ([1, 1], 'inline'), ([1, 1], 'lines')):
+                add([f1, f2], comp, style)
+    if tier == 'thorough':
+        triples = list(itertools.product(_TH_FORMS4, repeat=3))
+    else:
+        triples = [tuple(_TH_FORMS4[(i + j) % 4] for j in range(3)) for i in range(4)]
+        triples += [('lv', 'vFin', 'inf'), ('vFin', 'lv', 'v')]
+    for forms in triples:
+        for comp in _compositions(3):
+            for style in ('inline', 'lines'):
+                add(list(forms), comp, style)
+    # (value)xn repeats
+    for text, nt, spell in (
+        ('$THETA (0,1.50)x2', 2, {'THETA_1': ['1.50'], 'THETA_2': ['1.50']}),
+        ('$THETA (0,1.50,9.5)x2 3.25 FIX', 3, {'THETA_1': ['1.50', '9.5'], 'THETA_2': ['1.50', '9.5'], 'THETA_3': ['3.25']}),
+        ('$THETA 3.25\n$THETA (1.50)x2', 3, {'THETA_1': ['3.25'], 'THETA_2': ['1.50'], 'THETA_3': ['1.50']}),
+    ):
+        out.append({'family': 'theta', 'nt': nt, 'ne': 1, 'ns': 1, 'theta': text, 'omega': _SIMPLE_OMEGA['text'],
+                    'sigma': _SIMPLE_SIGMA['text'], 'spell': spell, 'scaled': []})
+    return out
+
+
+# omega layouts: (text with {R} for the record name, number of etas, spelling per parameter
+# suffix 'i_j', records with a non-default scale: list of parameter-suffix groups)
+def _omega_specs(tier):
+    S = []
+
+    def add(text, n, spell, scaled=()):
+        S.append((text, n, spell, [list(g) for g in scaled]))
+
+    d3 = {'1_1': ['0.10'], '2_2': ['0.20'], '3_3': ['0.30']}
+    d2 = {'1_1': ['0.10'], '2_2': ['0.20']}
+    add('${R} 0.10', 1, {'1_1': ['0.10']})
+    add('${R} 0.10 0.20', 2, d2)
+    add('${R} 0.10 0.20 0.30', 3, d3)
+    add('${R} 0.10 ; V1\n 0.20 ; V2\n 0.30 ; V3', 3, d3)
+    add('${R} 0.10\n0.20\n0.30', 3, d3)
+    add('${R} 0.10\n${R} 0.20\n${R} 0.30', 3, d3)
+    add('${R} 0.10 0.20\n${R} 0.30', 3, d3)
+    add('${R} 0.10\n${R} 0.20 0.30', 3, d3)
+    add('${R} DIAGONAL(3) 0.10 0.20 0.30', 3, d3)
+    add('${R} DIAGONAL(2) 0.10 0.20\n${R} 0.30', 3, d3)
+    # FIX at value level / record level
+    add('${R} 0.10 FIX 0.20 0.30', 3, d3)
+    add('${R} 0.10 0.20 FIX 0.30 FIX', 3, d3)
+    add('${R} (0.10 FIX) 0.20 (FIX 0.30)', 3, d3)
+    add('${R} 0.10 FIX\n${R} 0.20\n${R} 0.30 FIX', 3, d3)
+    # SD at value level
+    add('${R} 0.10 SD 0.20 0.30', 3, d3, [['1_1']])
+    add('${R} (0.10 SD) (0.20 SD FIX) 0.30 VARIANCE', 3, d3, [['1_1'], ['2_2']])
+    # (value)xn
+    add('${R} (0.10)x2', 2, {'1_1': ['0.10'], '2_2': ['0.10']})
+    add('${R} 0.30 (0.10)x2', 3, {'1_1': ['0.30'], '2_2': ['0.10'], '3_3': ['0.10']})
+    # blocks
+    b2 = {'1_1': ['0.10'], '2_1': ['0.01'], '2_2': ['0.20']}
+    b3 = {'1_1': ['0.10'], '2_1': ['0.01'], '2_2': ['0.20'], '3_1': ['0.02'], '3_2': ['0.03'], '3_3': ['0.30']}
+    b2d = dict(b2, **{'3_3': ['0.30']})
+    db2 = {'1_1': ['0.30'], '2_2': ['0.10'], '3_2': ['0.01'], '3_3': ['0.20']}
+    add('${R} BLOCK(2) 0.10 0.01 0.20', 2, b2)
+    add('${R} BLOCK(2)\n0.10\n0.01 0.20', 2, b2)
+    add('${R} BLOCK(2) 0.10 0.01 0.20\n${R} 0.30', 3, b2d)
+    add('${R} BLOCK(2)\n0.10 ; V1\n0.01 ; C12\n0.20 ; V2\n${R} 0.30', 3, b2d)
+    add('${R} 0.30\n${R} BLOCK(2) 0.10 0.01 0.20', 3, db2)
+    add('${R} BLOCK(3) 0.10 0.01 0.20 0.02 0.03 0.30', 3, b3)
+    add('${R} BLOCK(3)\n0.10\n0.01 0.20\n0.02 0.03 0.30', 3, b3)
+    add('${R} BLOCK(2) FIX 0.10 0.01 0.20\n${R} 0.30', 3, b2d)
+    add('${R} BLOCK(2) 0.10 0.01 0.20 FIX\n${R} 0.30', 3, b2d)
+    add('${R} BLOCK(2) (0.10 FIX) 0.01 0.20\n${R} 0.30', 3, b2d)
+    add('${R} BLOCK(2) 0.10 0.01 0.20\n${R} 0.30 FIX', 3, b2d)
+    add('${R} BLOCK(3) FIX 0.10 0.01 0.20 0.02 0.03 0.30', 3, b3)
+    add('${R} BLOCK(3) 0.10 0.01 0.20 0.02 0.03 0.30 FIX', 3, b3)
+    add('${R} BLOCK(1) 0.10\n${R} BLOCK(1) 0.20', 2, d2)
+    add('${R} BLOCK(2) VALUES(0.10,0.01)', 2, {'1_1': ['0.10'], '2_1': ['0.01'], '2_2': ['0.10']})
+    # SAME
+    add('${R} BLOCK(1) 0.10\n${R} BLOCK(1) SAME', 2, {'1_1': ['0.10']})
+    add('${R} BLOCK(1) 0.10\n${R} BLOCK SAME\n${R} 0.30', 3, {'1_1': ['0.10'], '3_3': ['0.30']})
+    add('${R} BLOCK(2) 0.10 0.01 0.20\n${R} BLOCK(2) SAME', 4, b2)
+    add('${R} 0.30\n${R} BLOCK(1) FIX 0.10\n${R} BLOCK(1) SAME', 3, {'1_1': ['0.30'], '2_2': ['0.10']})
+    # scales
+    g2 = [['1_1', '2_1', '2_2']]
+    g3 = [['1_1', '2_1', '2_2', '3_1', '3_2', '3_3']]
+    sp2 = {'1_1': ['0.50'], '2_1': ['0.10'], '2_2': ['0.40']}
+    sp3 = {'1_1': ['0.50'], '2_1': ['0.10'], '2_2': ['0.40'], '3_1': ['0.20'], '3_2': ['0.15'], '3_3': ['0.60']}
+    for opts in ('SD CORRELATION', 'STANDARD COVARIANCE', 'VARIANCE CORRELATION', 'VARIANCE COVARIANCE',
+                 'CHOLESKY', 'SD'):
+        add('${R} BLOCK(2) %s 0.50 0.10 0.40' % opts, 2, sp2, g2)
+        add('${R} BLOCK(2) %s\n0.50\n0.10 0.40\n${R} 0.30' % opts, 3, dict(sp2, **{'3_3': ['0.30']}), g2)
+    for opts in ('SD CORRELATION', 'CHOLESKY'):
+        add('${R} BLOCK(3) %s\n0.50\n0.10 0.40\n0.20 0.15 0.60' % opts, 3, sp3, g3)
+        add('${R} BLOCK(2) %s FIX 0.50 0.10 0.40\n${R} 0.30' % opts, 3, dict(sp2, **{'3_3': ['0.30']}), g2)
+        add('${R} BLOCK(2) 0.50 0.10 0.40 %s\n${R} 0.30' % opts, 3, dict(sp2, **{'3_3': ['0.30']}), g2)
+    if tier == 'thorough':
+        add('${R} BLOCK(2) CORRELATION SD FIX\n0.50\n0.10 0.40', 2, sp2, g2)
+        add('${R} 0.30\n${R} BLOCK(2) SD CORRELATION 0.50 0.10 0.40', 3,
+            {'1_1': ['0.30'], '2_2': ['0.50'], '3_2': ['0.10'], '3_3': ['0.40']}, [['2_2', '3_2', '3_3']])
+        add('${R} BLOCK(3) VARIANCE CORRELATION\n0.50\n0.10 0.40\n0.20 0.15 0.60', 3, sp3, g3)
+        add('${R} BLOCK(3) STANDARD COVARIANCE\n0.50\n0.10 0.40\n0.20 0.15 0.60', 3, sp3, g3)
+    return S
+
+
+def _omega_layouts(tier):
+    out = []
+    for text, n, spell, scaled in _omega_specs(tier):
+        out.append({'family': 'omega', 'nt': 2, 'ne': n, 'ns': 1, 'theta': _SIMPLE_THETA,
+                    'omega': text.replace('${R}', '$OMEGA'), 'sigma': _SIMPLE_SIGMA['text'],
+                    'spell': {'OMEGA_' + k: v for k, v in spell.items()},
+                    'scaled': [['OMEGA_' + s for s in g] for g in scaled]})
+    return out
+
+
+def _sigma_layouts(tier):
+    out = []
+    for text, n, spell, scaled in _omega_specs(tier):
+        if n > 2 and tier != 'thorough':
+            continue
+        if n > 3:
+            continue
+        out.append({'family': 'sigma', 'nt': 2, 'ne': 1, 'ns': n, 'theta': _SIMPLE_THETA,
+                    'omega': _SIMPLE_OMEGA['text'], 'sigma': text.replace('${R}', '$SIGMA'),
+                    'spell': {'SIGMA_' + k: v for k, v in spell.items()},
+                    'scaled': [['SIGMA_' + s for s in g] for g in scaled]})
+    return out
+
+
+# --- independent views of a model --------------------------------------------------------------
+
+
+def _pmap(model):
+    return {p.name: (float(p.init), float(p.lower), float(p.upper), bool(p.fix)) for p in model.parameters}
+
+
+def _dists(model):
+    """[(names, level, [[entry symbol name or None for 0]])] per distribution, in order"""
+    out = []
+    for d in model.random_variables:
+        names = list(d.names)
+        n = len(names)
+        var = d.variance
+        rows = []
+        for i in range(n):
+            row = []
+            for j in range(n):
+                e = var if n == 1 else var[i, j]
+                s = str(e)
+                row.append(None if s in ('0', '0.0') else s)
+            rows.append(row)
+        out.append((names, d.level, rows))
+    return out
+
+
+def _roles(model):
+    """role -> parameter name.  Roles are independent of parameter names and of the order of the
+    parameter list: ('theta', k) = k-th population parameter not used by a random variable,
+    ('omega'|'sigma', i, j) = position in the covariance matrix of all etas / epsilons."""
+    dists = _dists(model)
+    used = set()
+    for names, level, rows in dists:
+        for row in rows:
+            used.update(x for x in row if x)
+    roles = {}
+    k = 0
+    for p in model.parameters:
+        if p.name not in used:
+            k += 1
+            roles[('theta', k)] = p.name
+    eta_names = set(model.random_variables.etas.names)
+    pos = {'omega': 0, 'sigma': 0}
+    for names, level, rows in dists:
+        kind = 'omega' if names[0] in eta_names else 'sigma'
+        base = pos[kind]
+        for i in range(len(names)):
+            for j in range(i + 1):
+                if rows[i][j] is not None:
+                    roles[(kind, base + i + 1, base + j + 1)] = rows[i][j]
+        pos[kind] += len(names)
+    return roles
+
+
+def _rv_view(model):
+    """name-independent numeric view of the random variables: per distribution
+    (kind, size, level, numeric covariance matrix, sharing pattern of the entries)"""
+    pm = _pmap(model)
+    eta_names = set(model.random_variables.etas.names)
+    out = []
+    canon = {}
+    for names, level, rows in _dists(model):
+        kind = 'eta' if names[0] in eta_names else 'eps'
+        mat = [[(pm[x][0] if x in pm else float('nan')) if x else 0.0 for x in row] for row in rows]
+        pat = [[(canon.setdefault(x, len(canon)) if x else -1) for x in row] for row in rows]
+        out.append((kind, len(names), str(level), mat, pat))
+    return out
+
+
+def _close(a, b, rtol):
+    if a == b:
+        return True
+    if math.isinf(a) or math.isinf(b) or math.isnan(a) or math.isnan(b):
+        return False
+    return abs(a - b) <= rtol * max(abs(a), abs(b))
+
+
+def _records_text(code, rec):
+    """text of all records $<rec> of the control stream (comments removed)"""
+    out = []
+    for chunk in re.split(r'(?=\$)', code):
+        if chunk.upper().startswith('$' + rec):
+            lines = [ln.split(';', 1)[0] for ln in chunk.split('\n')]
+            out.append('\n'.join(lines))
+    return '\n'.join(out)
+
+
+def _has_token(text, tok):
+    return re.search(r'(?<![\w.])' + re.escape(tok) + r'(?![\w.])', text) is not None
+
+
+# --- edits ------------------------------------------------------------------------------------
+
+
+def _theta_names(model):
+    used = set()
+    for names, level, rows in _dists(model):
+        for row in rows:
+            used.update(x for x in row if x)
+    return [p.name for p in model.parameters if p.name not in used]
+
+
+def _new_value(p, salt):
+    """a valid new initial estimate different from all spelled layout values"""
+    lo, up, init = float(p.lower), float(p.upper), float(p.init)
+    if math.isfinite(up):
+        cand = (init + up) / 2 + 0.0137 * salt
+        if not (lo < cand < up):
+            cand = (init + up) / 2
+        return round(cand, 6)
+    return round(init + 0.7137 + 0.01 * salt, 6)
+
+
+def _edits_for(model, family):
+    """the single edits applicable to `model` (json-able descriptors), exhaustively"""
+    E = []
+    rvs = model.random_variables
+    if family == 'theta':
+        names = _theta_names(model)
+        for i, n in enumerate(names):
+            p = model.parameters[n]
+            E.append(['init', n, _new_value(p, i + 1)])
+            E.append(['lower', n, round(float(p.init) - 1.0137, 6)])
+            E.append(['upper', n, round((float(p.upper) if math.isfinite(float(p.upper)) else float(p.init)) + 5.5137, 6)])
+            E.append(['fix' if not p.fix else 'unfix', [n]])
+        if len(names) > 1:
+            E.append(['fix', names])
+            E.append(['unfix', names])
+        E.append(['add_theta', 'NEWP', 0.7137, 0.0, 2.0137, True])
+        E.append(['add_theta', 'NEWQ', 0.7137, None, None, False])
+        for n in names:
+            E.append(['rm_theta', n])
+        return E
+    kind = 'omega' if family == 'omega' else 'sigma'
+    sub = rvs.etas if family == 'omega' else rvs.epsilons
+    own = set(sub.names)
+    dists = [d for d in _dists(model) if d[0][0] in own]
+    seen = set()
+    for names, level, rows in dists:
+        n = len(names)
+        for i in range(n):
+            for j in range(i + 1):
+                x = rows[i][j]
+                if x is None or x in seen:
+                    continue
+                seen.add(x)
+                v = float(model.parameters[x].init)
+                E.append(['init', x, round(v * 1.5 + 0.0137, 6) if i == j else round(v * 0.5, 6)])
+    done = set()
+    for names, level, rows in dists:
+        ps = []
+        for row in rows:
+            for x in row:
+                if x and x not in ps:
+                    ps.append(x)
+        if tuple(ps) in done:
+            continue
+        done.add(tuple(ps))
+        fixed = all(model.parameters[x].fix for x in ps)
+        E.append(['unfix' if fixed else 'fix', ps])
+    allp = [x for x in seen]
+    E.append(['fix', allp])
+    E.append(['unfix', allp])
+    rn = list(sub.names)
+    if len(rn) >= 2:
+        E.append(['join', rn[-2:]])
+        if len(rn) >= 3:
+            E.append(['join', rn[:2]])
+            E.append(['join', rn])
+            E.append(['join', [rn[0], rn[-1]]])
+    if any(len(d[0]) > 1 for d in dists):
+        E.append(['split', None])
+        for names, level, rows in dists:
+            if len(names) > 1:
+                for n in names:
+                    E.append(['split', [n]])
+    if family == 'omega':
+        for n in rn:
+            E.append(['remove_iiv', [n]])
+        if len(rn) >= 2:
+            E.append(['remove_iiv', rn[1:]])
+        E.append(['add_iiv', 'P1', 'exp'])
+        E.append(['add_iiv', 'P2', 'add'])
+    else:
+        for n in rn[1:]:
+            E.append(['rm_eps', n])
+    return E
+
+
+def _apply_edit(model, e):
+    from pharmpy.basic import Expr
+    from pharmpy.model import Assignment
+    from pharmpy import modeling as M
+
+    k = e[0]
+    if k == 'init':
+        return M.set_initial_estimates(model, {e[1]: e[2]})
+    if k == 'lower':
+        return M.set_lower_bounds(model, {e[1]: e[2]})
+    if k == 'upper':
+        return M.set_upper_bounds(model, {e[1]: e[2]})
+    if k == 'fix':
+        return M.fix_parameters(model, list(e[1]))
+    if k == 'unfix':
+        return M.unfix_parameters(model, list(e[1]))
+    if k == 'add_theta':
+        m = M.add_population_parameter(model, e[1], e[2], lower=e[3], upper=e[4])
+        if e[5]:
+            st = Assignment.create(Expr.symbol('Q' + e[1]), Expr.symbol(e[1]))
+            m = m.replace(statements=st + m.statements)
+        return m
+    if k in ('rm_theta', 'rm_eps'):
+        m = model.replace(statements=model.statements.subs({Expr.symbol(e[1]): Expr.integer(0)}))
+        return M.remove_unused_parameters_and_rvs(m)
+    if k == 'join':
+        return M.create_joint_distribution(model, list(e[1]))
+    if k == 'split':
+        return M.split_joint_distribution(model, None if e[1] is None else list(e[1]))
+    if k == 'remove_iiv':
+        return M.remove_iiv(model, list(e[1]))
+    if k == 'add_iiv':
+        return M.add_iiv(model, [e[1]], e[2])
+    raise ValueError(e)
+
+
+_KIND_LABEL = {
+    'init': 'set_initial_estimates', 'lower': 'set_lower_bounds', 'upper': 'set_upper_bounds',
+    'fix': 'fix_parameters', 'unfix': 'unfix_parameters', 'add_theta': 'add_population_parameter',
+    'rm_theta': 'removing a theta', 'rm_eps': 'removing an epsilon', 'join': 'create_joint_distribution',
+    'split': 'split_joint_distribution', 'remove_iiv': 'remove_iiv', 'add_iiv': 'add_iiv',
+}
+
+
+def _edit_label(family, edits):
+    if not edits:
+        return f'{family} layout, no edit'
+    return f'{family} layout, after ' + ' then '.join(_KIND_LABEL[e[0]] for e in edits)
+
+
+class _RFails:
+    def __init__(self):
+        self.items = {}
+
+    def add(self, fid, clause, detail, lay, edits):
+        key = (fid, clause)
+        case = {'layout': {k: lay[k] for k in ('family', 'nt', 'ne', 'ns', 'theta', 'omega', 'sigma', 'spell', 'scaled')},
+                'edits': edits, 'fid': fid, 'clause': clause}
+        size = (len(edits), lay['nt'] + lay['ne'] + lay['ns'], len(lay['theta']) + len(lay['omega']) + len(lay['sigma']))
+        if key not in self.items or size < self.items[key][0]:
+            self.items[key] = (size, {'fid': fid, 'clause': clause, 'detail': _short(detail, 900), 'case': case,
+                                      'replay_fn': 'bounded_record_updates_replay'})
+
+
+def _check_roundtrip(m0, m2, lay, edits, fails):
+    """the contract: re-reading the code generated for m2 gives the parameters / random variables
+    of m2, and untouched values keep their spelling.  returns True when the case was evaluated"""
+    from pharmpy.modeling import read_model_from_string
+
+    family = lay['family']
+    fid = FID_UPD_TH if family == 'theta' else FID_UPD_RV
+    label = _edit_label(family, edits)
+
+    def cl(c):
+        return f'{label}: {c}'
+
+    ctx = f"layout {lay['theta']!r} | {lay['omega']!r} | {lay['sigma']!r}, edits {edits}: "
+    try:
+        code = m2.code
+        m3 = read_model_from_string(code)
+    except Exception as e:
+        fails.add(fid, cl(R_PARSE), ctx + f'{_exc_str(e)}', lay, edits)
+        return True
+    shown = ' // '.join(ln for ln in code.split('\n') if ln[:1] in '$ 0123456789(.' and not ln.startswith(
+        ('$PROB', '$INPUT', '$DATA', '$PRED', '$EST')))
+    ctx += f'code {shown!r}: '
+    p2, p3 = _pmap(m2), _pmap(m3)
+    n2, n3 = list(m2.parameters.names), list(m3.parameters.names)
+    if sorted(n2) != sorted(n3):
+        fails.add(fid, cl(R_NAMES), ctx + f'in memory {n2}, re-read {n3}', lay, edits)
+    elif n2 != n3:
+        fails.add(fid, cl(R_ORDER), ctx + f'in memory {n2}, re-read {n3}', lay, edits)
+    try:
+        r2, r3 = _roles(m2), _roles(m3)
+    except Exception as e:
+        fails.add(fid, cl(R_RVSTRUCT), ctx + f'roles not computable: {_exc_str(e)}', lay, edits)
+        return True
+    if sorted(r2) != sorted(r3):
+        fails.add(fid, cl(R_RVSTRUCT), ctx + f'parameter positions differ: in memory {sorted(r2)}, re-read {sorted(r3)}',
+                  lay, edits)
+    else:
+        bad6, bad12, badb, badf = [], [], [], []
+        for role in sorted(r2):
+            a, b = p2[r2[role]], p3[r3[role]]
+            if not _close(a[0], b[0], 1e-6):
+                bad6.append((role, r2[role], a[0], b[0]))
+            elif not _close(a[0], b[0], 1e-12):
+                bad12.append((role, r2[role], a[0], b[0]))
+            if a[1] != b[1] or a[2] != b[2]:
+                badb.append((role, r2[role], a[1:3], b[1:3]))
+            if a[3] != b[3]:
+                badf.append((role, r2[role], a[3], b[3]))
+        if bad6:
+            fails.add(fid, cl(R_INIT6), ctx + f'(position, name, in memory, re-read) {bad6}', lay, edits)
+        if bad12:
+            fails.add(fid, cl(R_INIT12), ctx + f'(position, name, in memory, re-read) {bad12}', lay, edits)
+        if badb:
+            fails.add(fid, cl(R_BOUNDS), ctx + f'(position, name, in memory, re-read) {badb}', lay, edits)
+        if badf:
+            fails.add(fid, cl(R_FIX), ctx + f'(position, name, in memory, re-read) {badf}', lay, edits)
+    rn2, rn3 = list(m2.random_variables.names), list(m3.random_variables.names)
+    if rn2 != rn3:
+        fails.add(fid, cl(R_RVNAMES), ctx + f'in memory {rn2}, re-read {rn3}', lay, edits)
+    v2, v3 = _rv_view(m2), _rv_view(m3)
+    key2 = sorted((k, n, lv, pat) for k, n, lv, mat, pat in v2)
+    same = len(v2) == len(v3)
+    if same:
+        # compare per kind in order (etas and epsilons may be interleaved differently in the list)
+        for kind in ('eta', 'eps'):
+            a = [x for x in v2 if x[0] == kind]
+            b = [x for x in v3 if x[0] == kind]
+            if len(a) != len(b):
+                same = False
+                break
+            for x, y in zip(a, b):
+                if x[1] != y[1] or x[2] != y[2]:
+                    same = False
+                elif any(not _close(p, q, 1e-6) for r1, r2_ in zip(x[3], y[3]) for p, q in zip(r1, r2_)):
+                    same = False
+                elif _canon(x[4]) != _canon(y[4]):
+                    same = False
+    if not same:
+        fails.add(fid, cl(R_RVSTRUCT), ctx + f'in memory {_rv_brief(v2)}, re-read {_rv_brief(v3)}', lay, edits)
+    del key2
+    # spelling of untouched values
+    p0 = _pmap(m0)
+    d0 = {tuple(n): rows for n, lv, rows in _dists(m0)}
+    d2 = {tuple(n): rows for n, lv, rows in _dists(m2)}
+    same_dist = set()
+    for names, rows in d0.items():
+        if d2.get(names) == rows:
+            for row in rows:
+                same_dist.update(x for x in row if x)
+    unchanged = {n for n in p0 if n in p2 and p0[n] == p2[n]}
+    scaled_members = {n for g in lay['scaled'] for n in g}
+    lost = []
+    for name, toks in lay['spell'].items():
+        if name not in unchanged:
+            continue
+        if name.startswith(('OMEGA', 'SIGMA')) and name not in same_dist:
+            continue
+        if name in scaled_members:
+            grp = next(g for g in lay['scaled'] if name in g)
+            if not all(x in unchanged for x in grp):
+                continue
+        rec = 'THETA' if family == 'theta' else ('OMEGA' if name.startswith('OMEGA') else 'SIGMA')
+        text = _records_text(code, rec)
+        for t in toks:
+            if not _has_token(text, t):
+                lost.append((name, t))
+    if lost:
+        fails.add(fid, cl(R_SPELL), ctx + f'unchanged (parameter, original spelling) no longer in the ${rec} text: {lost}',
+                  lay, edits)
+    return True
+
+
+def _canon(pat):
+    m = {}
+    return [[(m.setdefault(x, len(m)) if x >= 0 else -1) for x in row] for row in pat]
+
+
+def _rv_brief(v):
+    return [(k, n, lv, [[round(x, 9) for x in row] for row in mat]) for k, n, lv, mat, pat in v]
+
+
+def _run_layout(lay, depth):
+    """all edit sequences of length <= depth on one layout; returns (cases, nontrivial, fails)"""
+    from pharmpy.model import ModelSyntaxError
+    from pharmpy.modeling import read_model_from_string
+
+    fails = _RFails()
+    code = _layout_code(lay)
+    family = lay['family']
+    fid = FID_UPD_TH if family == 'theta' else FID_UPD_RV
+    cases = nontrivial = 0
+    cases += 1
+    try:
+        m0 = read_model_from_string(code)
+    except ModelSyntaxError:
+        return cases, nontrivial, fails  # documented: the layout is not legal for pharmpy
+    except Exception as e:
+        fails.add(FID_PARSE, f'{family} layout: {R_READ}', f'layout {code!r}: {_exc_str(e)}', lay, [])
+        return cases, nontrivial, fails
+    nontrivial += 1
+    try:
+        if m0.code != code:
+            fails.add(fid, f'{family} layout, no edit: {R_IDENT}', f'layout {code!r} regenerated as {m0.code!r}', lay, [])
+    except Exception as e:
+        fails.add(fid, f'{family} layout, no edit: {R_PARSE}', f'layout {code!r}: {_exc_str(e)}', lay, [])
+    _check_roundtrip(m0, m0, lay, [], fails)
+
+    def rec(model, edits, d):
+        nonlocal cases, nontrivial
+        try:
+            cand = _edits_for(model, family)
+        except Exception as e:
+            fails.add(fid, f'{_edit_label(family, edits)}: {R_RVSTRUCT}',
+                      f'layout {code!r} edits {edits}: model not inspectable: {_exc_str(e)}', lay, edits)
+            return
+        for e in cand:
+            cases += 1
+            seq = edits + [e]
+            try:
+                m2 = _apply_edit(model, e)
+            except ValueError:
+                continue  # rejected input (documented)
+            except Exception as ex:
+                fails.add(_FID_EDIT[e[0]], f'{_edit_label(family, seq)}: {R_NOERR}',
+                          f"layout {lay['theta']!r} | {lay['omega']!r} | {lay['sigma']!r}, edits {seq}: {_exc_str(ex)} :: "
+                          + traceback.format_exc()[-250:], lay, seq)
+                continue
+            nontrivial += 1
+            _check_roundtrip(m0, m2, lay, seq, fails)
+            if d > 1:
+                rec(m2, seq, d - 1)
+
+    rec(m0, [], depth)
+    return cases, nontrivial, fails
+
+
+def _layout_worker(args):
+    lay, depth = args
+    with contextlib.redirect_stdout(io.StringIO()), contextlib.redirect_stderr(io.StringIO()):
+        try:
+            cases, nontrivial, fails = _run_layout(lay, depth)
+            return cases, nontrivial, list(fails.items.values())
+        except BaseException as e:
+            case = {'layout': lay, 'edits': [], 'fid': 'contracts/b_db.py:_run_layout', 'clause': 'checker runs to completion'}
+            return 1, 0, [((0, 0, 0), {'fid': case['fid'], 'clause': case['clause'],
+                                       'detail': _exc_str(e) + ' :: ' + traceback.format_exc()[-600:], 'case': case,
+                                       'replay_fn': 'bounded_record_updates_replay'})]
+
+
+def bounded_record_updates(tier):
+    import multiprocessing
+
+    import pharmpy.modeling  # noqa: F401  (import once before forking)
+
+    th, om, sg = _theta_layouts(tier), _omega_layouts(tier), _sigma_layouts(tier)
+    jobs = [(lay, 1) for lay in th + om + sg]
+    npairs = 0
+    if tier == 'thorough':
+        pair_layouts = [lay for lay in th if lay['nt'] <= 2] + om + sg
+        # pairs of edits: every edit applicable after every first edit
+        jobs = [(lay, 2) for lay in pair_layouts] + [(lay, 1) for lay in th if lay['nt'] > 2]
+        npairs = len(pair_layouts)
+    jobs.sort(key=lambda j: -(j[1] * 100 + j[0]['nt'] + j[0]['ne'] + j[0]['ns']))
+    with multiprocessing.get_context('fork').Pool(NPROC) as pool:
+        results = pool.map(_layout_worker, jobs, chunksize=1)
+    cases = nontrivial = 0
+    best = {}
+    for c, n, fl in results:
+        cases += c
+        nontrivial += n
+        for size, f in fl:
+            key = (f['fid'], f['clause'])
+            if key not in best or size < best[key][0]:
+                best[key] = (size, f)
+    fails = [f for size, f in sorted(best.values(), key=lambda x: (x[1]['fid'], x[1]['clause']))]
+    return {
+        'cases': cases,
+        'nontrivial': nontrivial,
+        'bound': (
+            f'{len(th)} $THETA layouts (<= 3 thetas over 1-3 records, forms v, (l,v), (l,v,u), v FIX, (l,v,u FIX), '
+            f'(l,v,u) FIX, (v FIX), (-INF,v,INF), (v)xn, with/without name comments), {len(om)} $OMEGA and {len(sg)} '
+            f'$SIGMA layouts (DIAGONAL one/several lines/records, (v)xn, BLOCK(1..3), VALUES, SAME, FIX at record and '
+            f'value level, SD/VARIANCE x CORRELATION/COVARIANCE, CHOLESKY; <= 4 etas) x EVERY applicable single edit '
+            f'(init / lower / upper / fix / unfix of each parameter or distribution and of all, add theta used/unused, '
+            f'remove each theta / epsilon, join trailing / leading / outer / all, split all / each, remove_iiv of each eta '
+            f'and of all but the first, add_iiv exp/add)'
+            + (f' and EVERY ordered pair of such edits on {npairs} layouts' if npairs else '')
+        ),
+        'samples': [_short((j[0]['theta'], j[0]['omega'], j[0]['sigma']), 200) for j in (jobs[0], jobs[len(jobs) // 2], jobs[-1])],
+        'fails': fails,
+    }
+
+
+def bounded_record_updates_replay(rp):
+    case = rp['case']
+    lay = case['layout']
+    from pharmpy.model import ModelSyntaxError
+    from pharmpy.modeling import read_model_from_string
+
+    fails = _RFails()
+    code = _layout_code(lay)
+    family = lay['family']
+    fid = FID_UPD_TH if family == 'theta' else FID_UPD_RV
+    with contextlib.redirect_stdout(io.StringIO()), contextlib.redirect_stderr(io.StringIO()):
+        try:
+            m0 = read_model_from_string(code)
+        except ModelSyntaxError:
+            return (True, 'ok')
+        except Exception as e:
+            fails.add(FID_PARSE, f'{family} layout: {R_READ}', f'layout {code!r}: {_exc_str(e)}', lay, [])
+            m0 = None
+        if m0 is not None:
+            edits = case['edits']
+            if not edits:
+                try:
+                    if m0.code != code:
+                        fails.add(fid, f'{family} layout, no edit: {R_IDENT}', f'regenerated as {m0.code!r}', lay, [])
+                except Exception as e:
+                    fails.add(fid, f'{family} layout, no edit: {R_PARSE}', _exc_str(e), lay, [])
+            m = m0
+            ok = True
+            for i, e in enumerate(edits):
+                try:
+                    m = _apply_edit(m, e)
+                except ValueError:
+                    ok = False
+                    break
+                except Exception as ex:
+                    fails.add(_FID_EDIT[e[0]], f'{_edit_label(family, edits[: i + 1])}: {R_NOERR}', _exc_str(ex), lay,
+                              edits[: i + 1])
+                    ok = False
+                    break
+            if ok:
+                _check_roundtrip(m0, m, lay, edits, fails)
+    for (f_id, clause), (size, f) in fails.items.items():
+        if f_id == case.get('fid') and clause == case.get('clause'):
             return (False, f['detail'])
     return (True, 'ok')
